@@ -73,20 +73,20 @@ type fact struct {
 }
 
 type prover struct {
-	w     *World
-	fn    *ssa.Function
-	site  ssa.Instruction
-	atoms map[string]ssa.Value // atom key -> representative value (for len atoms: the measured value)
+	w            *World
+	fn           *ssa.Function
+	site         ssa.Instruction
+	atoms        map[string]ssa.Value         // atom key -> representative value (for len atoms: the measured value)
 	summaryLoads map[string][]ssa.Instruction // len-atom key -> helper calls whose summary fact mentions it (reads for the kill check)
-	isLen map[string]bool
-	facts []fact
-	neq   []lin // e != 0
-	seenV map[ssa.Value]bool
-	depth int
-	sub       map[ssa.Value]ssa.Value
-	condFacts []condFact
-	prefSuf   []prefSuf
-	lenDone   map[string]bool
+	isLen        map[string]bool
+	facts        []fact
+	neq          []lin // e != 0
+	seenV        map[ssa.Value]bool
+	depth        int
+	sub          map[ssa.Value]ssa.Value
+	condFacts    []condFact
+	prefSuf      []prefSuf
+	lenDone      map[string]bool
 }
 
 func (w *World) newProver(fn *ssa.Function, site ssa.Instruction) *prover {
